@@ -2,17 +2,17 @@ CONSTANTS
   Types <- T1
   TypeSeq <- T1s
   Owners <- O2
-  SubOpts <- OptOnce
+  SubOpts <- OptErr
   AutoOpts <- AutoNone
-  RVs = {"none", "false", "haltremove"}
-  UnsubModes = {"handler", "handlerT", "eid", "eidT", "pair"}
-  Forms = {"inst"}
-  NoErrs = {FALSE}
-  RaiseTypes <- TA
-  SubTypes <- TA
+  RVs <- RVall
+  UnsubModes = {}
+  Forms = {"inst", "cls"}
+  NoErrs = {FALSE, TRUE}
+  RaiseTypes <- TAU
+  SubTypes <- TAU
   MaxSubs = 2
   MaxRaises = 2
-  MaxUnsubs = 1
+  MaxUnsubs = 0
   MaxDepth = 2
   MaxOps = 1
   WithDrop = FALSE
